@@ -481,6 +481,7 @@ def run_inline_em(key):
 # ---------------------------------------------------------------- (e) built-in PA
 
 GRID = (0.0, -1.0, -3.0)
+WIDE = (0.0, -800.0, -2000.0)    # class log-likelihoods further apart than the exp() range
 
 
 def run_builtin(key):
@@ -490,8 +491,9 @@ def run_builtin(key):
     n = K * F * T
     digits = []
     x = idx
+    grid = WIDE if key.get('grid') == 'wide' else GRID
     for _ in range(2 * n):
-        digits.append(GRID[x % 3])
+        digits.append(grid[x % 3])
         x //= 3
     sp = np.array(digits[:n]).reshape(F, K, T)
     se = np.array(digits[n:]).reshape(F, K, T)
@@ -649,9 +651,11 @@ def subchecks(tier, seed):
         for (K, F, T) in tabs:
             for idx in range(3 ** (2 * K * F * T)):
                 for w in ('uniform', 'graded'):
-                    yield (K, F, T, idx, w)
-    subs.append(Sub('builtin_spatial_spectral_pa', ('K', 'F', 'T', 'idx', 'w'),
+                    yield (K, F, T, idx, w, 'narrow')
+                    if (K, F, T) in ((2, 1, 1), (2, 1, 2), (3, 1, 1)) and (thorough or w == 'uniform'):
+                        yield (K, F, T, idx, w, 'wide')
+    subs.append(Sub('builtin_spatial_spectral_pa', ('K', 'F', 'T', 'idx', 'w', 'grid'),
                     builtin_cases, run_builtin,
-                    bound=dict(grid=list(GRID), tables='all stream tables of the listed shapes'),
+                    bound=dict(grid=list(GRID), wide_grid=list(WIDE), tables='all stream tables of the listed shapes'),
                     require_flags=('identity', 'non_identity')))
     return subs
